@@ -406,7 +406,7 @@ Proof. vm_compute. reflexivity. Qed.
 Example ex_drun :
   run (proxy_dstep ex_V ex_V 1) [(PInt 1, PInt 2)]
     [DSetItem PNone (PInt 5); DUpdate (DSPairs [(PInt 3, PInt 3); (PInt 4, PInt (-1))]) []; DPopItem] =
-  ([(PInt 1, PInt 2)], [Ok PNone; Err (EValidation []); Ok (PTuple [PInt 0; PInt 5])]).
+  ([(PInt 1, PInt 2)], [Ok PNone; Err (EValidation (sa "4")); Ok (PTuple [PInt 0; PInt 5])]).
 Proof. vm_compute. reflexivity. Qed.
 
 Example ex_keys_distinct : keys_distinct [] [(PInt 1, PNone); (PInt 2, PNone)].
@@ -435,3 +435,183 @@ Qed.
 Example ex_no_clash :
   forallb (fun op => negb (kw_clash op)) [DUpdate DSNone [(PStr (sa "k"), PInt 1)]; DIOr DSSelf] = true.
 Proof. reflexivity. Qed.
+
+(* ================================================================================================ *)
+(* C15 for entries of typed dicts: a refusal is the validation error naming the offending entry     *)
+(* ================================================================================================ *)
+Section DPaths.
+  Variables VK VV : pyval -> res pyval.
+  Variable tg : N.
+
+  Lemma d_validate_err k v e :
+    d_validate VK VV k v = Err e -> e = EValidation (key_text k) /\ pair_ok VK VV (k, v) = false.
+  Proof.
+    unfold d_validate, pair_ok, dokb. destruct (VK k); [destruct (VV v)| |]; intros H; inversion H; subst; auto.
+  Qed.
+
+  Lemma d_validate_ok k v kv : d_validate VK VV k v = Ok kv -> pair_ok VK VV (k, v) = true.
+  Proof.
+    unfold d_validate, pair_ok, dokb. destruct (VK k); [destruct (VV v)| |]; intros H; inversion H; reflexivity.
+  Qed.
+
+  Lemma first_bad_app_none a b : first_bad VK VV a = None -> first_bad VK VV (a ++ b) = first_bad VK VV b.
+  Proof.
+    induction a as [|[k v] r IH]; [reflexivity|]. cbn [first_bad app].
+    destruct (pair_ok VK VV (k, v)); [exact IH|discriminate].
+  Qed.
+
+  Lemma first_bad_app_some a b k : first_bad VK VV a = Some k -> first_bad VK VV (a ++ b) = Some k.
+  Proof.
+    induction a as [|[k' v] r IH]; [discriminate|]. cbn [first_bad app].
+    destruct (pair_ok VK VV (k', v)); auto.
+  Qed.
+
+  (* the first offending pair: everything before it is acceptable, the pair itself is not *)
+  Lemma first_bad_spec ps k :
+    first_bad VK VV ps = Some k ->
+    exists before v after, ps = before ++ (k, v) :: after /\
+                           forallb (pair_ok VK VV) before = true /\ pair_ok VK VV (k, v) = false.
+  Proof.
+    induction ps as [|[k' v'] r IH]; [discriminate|]. cbn [first_bad].
+    destruct (pair_ok VK VV (k', v')) eqn:E; intros H.
+    - destruct (IH H) as (b & v & a & -> & Hb & Hk). exists ((k', v') :: b), v, a.
+      repeat split; auto. cbn [forallb]. rewrite E, Hb. reflexivity.
+    - inversion H; subst. exists [], v', r. repeat split; auto.
+  Qed.
+
+  Lemma first_bad_none ps : first_bad VK VV ps = None <-> forallb (pair_ok VK VV) ps = true.
+  Proof.
+    induction ps as [|[k v] r IH]; [split; reflexivity|]. cbn [first_bad forallb].
+    destruct (pair_ok VK VV (k, v)); [exact IH|split; discriminate].
+  Qed.
+
+  Lemma dvmap_ok_first_bad ps l : dvmap VK VV ps = Ok l -> first_bad VK VV ps = None.
+  Proof.
+    revert l. induction ps as [|[k v] r IH]; intros l; [reflexivity|]. cbn [dvmap first_bad].
+    destruct (d_validate VK VV k v) eqn:E; try discriminate. rewrite (d_validate_ok _ _ _ E).
+    destruct (dvmap VK VV r) eqn:Er; try discriminate. intros _. eapply IH; reflexivity.
+  Qed.
+
+  Lemma dvmap_err ps e :
+    dvmap VK VV ps = Err e -> exists k, first_bad VK VV ps = Some k /\ e = EValidation (key_text k).
+  Proof.
+    induction ps as [|[k v] r IH]; [discriminate|]. cbn [dvmap first_bad].
+    destruct (d_validate VK VV k v) eqn:E.
+    - rewrite (d_validate_ok _ _ _ E). destruct (dvmap VK VV r) eqn:Er; try discriminate.
+      intros H; inversion H; subst. apply IH; reflexivity.
+    - destruct (d_validate_err _ _ _ E) as [-> Hk]. rewrite Hk. intros H; inversion H; subst. eauto.
+    - discriminate.
+  Qed.
+
+  Lemma kwloop_err kw : forall s s' e,
+    kwloop VK VV s kw = (s', Err e) -> exists k, first_bad VK VV kw = Some k /\ e = EValidation (key_text k).
+  Proof.
+    induction kw as [|[k v] r IH]; intros s s' e; [discriminate|]. cbn [kwloop first_bad].
+    destruct (d_validate VK VV k v) as [[k' v']| |] eqn:E.
+    - rewrite (d_validate_ok _ _ _ E). apply IH.
+    - destruct (d_validate_err _ _ _ E) as [-> Hk]. rewrite Hk. intros H; inversion H; subst. eauto.
+    - discriminate.
+  Qed.
+
+  Lemma p_update_src_err s src s' e :
+    p_update_src VK VV s src = (s', Err e) ->
+    exists k, first_bad VK VV (if ds_compat src then [] else ds_items s src) = Some k /\ e = EValidation (key_text k).
+  Proof.
+    unfold p_update_src. destruct (ds_truthy s src); [|discriminate].
+    destruct (ds_compat src); [discriminate|].
+    destruct (dvmap VK VV (ds_items s src)) eqn:E; try discriminate.
+    intros H; inversion H; subst. apply dvmap_err; exact E.
+  Qed.
+
+  Lemma p_update_src_ok_first_bad s src s' u :
+    p_update_src VK VV s src = (s', Ok u) ->
+    first_bad VK VV (if ds_compat src then [] else ds_items s src) = None.
+  Proof.
+    unfold p_update_src. destruct (ds_truthy s src) eqn:T.
+    - destruct (ds_compat src); [reflexivity|].
+      destruct (dvmap VK VV (ds_items s src)) eqn:E; try discriminate. intros _. eapply dvmap_ok_first_bad; eauto.
+    - rewrite (not_truthy_items _ _ T). destruct (ds_compat src); reflexivity.
+  Qed.
+
+  Lemma p_update_err s src kw s' e :
+    p_update VK VV s src kw = (s', Err e) ->
+    exists k, first_bad VK VV ((if ds_compat src then [] else ds_items s src) ++ kw) = Some k /\
+              e = EValidation (key_text k).
+  Proof.
+    unfold p_update. destruct (p_update_src VK VV s src) as [s1 [u|e1|]] eqn:E.
+    - intros H. destruct (kwloop_err _ _ _ _ H) as (k & Hk & ->). exists k. split; auto.
+      rewrite (first_bad_app_none _ _ (p_update_src_ok_first_bad _ _ _ _ E)). exact Hk.
+    - intros H; inversion H; subst. destruct (p_update_src_err _ _ _ _ E) as (k & Hk & ->).
+      exists k. split; auto. apply first_bad_app_some; exact Hk.
+    - discriminate.
+  Qed.
+
+  (* every refusal of a validating operation names the first offending entry, as given *)
+  Lemma dict_rejection_entry s op s' e :
+    dop_validating op = true -> kw_clash op = false ->
+    proxy_dstep VK VV tg s op = (s', Err e) ->
+    exists k, first_bad VK VV (dchecked s op) = Some k /\ e = EValidation (key_text k).
+  Proof.
+    intros Hv Hc. destruct op; try discriminate; ddispatch; cbn [override_dstep dchecked].
+    - (* setitem *) cbn [first_bad].
+      destruct (d_validate VK VV k v) as [[k' v']| |] eqn:E; try discriminate.
+      destruct (d_validate_err _ _ _ E) as [-> Hk]. rewrite Hk. intros H; inversion H; subst. eauto.
+    - (* update *) rewrite (no_clash_call VK VV _ _ _ Hc).
+      destruct (p_update VK VV s src kw) as [s1 [u|e1|]] eqn:E; try discriminate.
+      intros H; inversion H; subst. eapply p_update_err; eauto.
+    - (* |= *)
+      destruct (p_update VK VV s src []) as [s1 [u|e1|]] eqn:E; try discriminate.
+      intros H; inversion H; subst. destruct (p_update_err _ _ _ _ _ E) as (k & Hk & ->).
+      rewrite app_nil_r in Hk. eauto.
+    - (* setdefault *) cbn [first_bad].
+      destruct (d_validate VK VV k (opt_or_none v)) as [[k' v']| |] eqn:E.
+      + cbn [b_dstep]. destruct (d_get k' s); discriminate.
+      + destruct (d_validate_err _ _ _ E) as [-> Hk]. rewrite Hk. intros H; inversion H; subst. eauto.
+      + discriminate.
+    - (* constructor *)
+      unfold dp_init. destruct (ds_samefield src); [discriminate|].
+      destruct (ds_items s src) as [|p r] eqn:It; [discriminate|].
+      destruct (dvmap VK VV (p :: r)) eqn:E; try discriminate.
+      intros H; inversion H; subst. apply dvmap_err; exact E.
+  Qed.
+
+  (* whole-value assignment / load of a plain dict: DictField._validate builds the proxy *)
+  Lemma dict_init_rejection items e :
+    dp_init VK VV false items = Err e ->
+    exists k, first_bad VK VV items = Some k /\ e = EValidation (key_text k).
+  Proof.
+    unfold dp_init. destruct items as [|p r]; [discriminate|].
+    destruct (dvmap VK VV (p :: r)) eqn:E; try discriminate.
+    intros H; inversion H; subst. apply dvmap_err; exact E.
+  Qed.
+
+  (* the builtin never reports a validation error, hence neither does an acceptable operation *)
+  Lemma b_dstep_no_validation s op p : snd (b_dstep s op) <> Err (EValidation p).
+  Proof.
+    destruct op; cbn [b_dstep snd]; try discriminate;
+      repeat match goal with
+             | |- context [match ?x with _ => _ end] => destruct x; cbn [snd]; try discriminate
+             end.
+  Qed.
+
+  Lemma dict_accepted_no_validation_error s op s' p :
+    kw_clash op = false -> daccepted VK VV s op = true ->
+    proxy_dstep VK VV tg s op <> (s', Err (EValidation p)).
+  Proof.
+    intros Hc Ha. rewrite (dict_refines_partial VK VV tg s op Hc Ha). unfold spec_dstep.
+    pose proof (b_dstep_no_validation s (norm_dop VK VV s op) p) as G.
+    destruct (b_dstep s (norm_dop VK VV s op)) as [s1 r]. cbn [snd] in G.
+    intros H; inversion H; subst. apply G.
+    destruct op; cbn [dretag] in *; try assumption;
+      destruct r as [[]| |]; try discriminate; assumption.
+  Qed.
+End DPaths.
+
+Example ex_first_bad :
+  first_bad ex_V ex_V [(PInt 1, PInt 1); (PInt 2, PInt (-3)); (PInt (-4), PInt 0)] = Some (PInt 2).
+Proof. reflexivity. Qed.
+
+Example ex_rejection_entry :
+  proxy_dstep ex_V ex_V 1 [] (DUpdate (DSIter [(PInt 1, PInt 1)]) [(PStr (sa "k"), PInt 2)]) =
+  ([(PInt 1, PInt 1)], Err (EValidation (sa "k"))).      (* the positional part is stored before the keywords are looked at *)
+Proof. vm_compute. reflexivity. Qed.
